@@ -63,6 +63,14 @@ func genC13(g GenCtx) interface{} {
 		sc.FailAt = 1 + rng.Intn(sc.Periods)
 		sc.FailKind = pick(rng, "error", "error-typed-nil", "error-with-list", "error-with-full-list", "error-timeout", "error-canceled", "error-canceled-bare", "error-deadline-bare", "error-notrunning", "error-notrunning-wrapped")
 	}
+	if g.Idx%20 == 13 {
+		// "never" spelled as a huge period (a year, decades): no list but the first
+		sc.PeriodMs = pickInt(rng, 365*24*3600*1000, 30*365*24*3600*1000)
+		sc.Periods = 2
+		sc.LatPreMs, sc.LatPostMs = 0, pickInt(rng, 0, 5)
+		sc.CloseAtMs = rng.Intn(1000)
+		sc.CloseAfterSteps = 0
+	}
 	sc.WatchFaults = rng.Intn(4) == 0
 	busy := g.Idx%10 == 7
 	if busy {
